@@ -1,10 +1,14 @@
 // C06 driver: calls the rendered EvalRates at the temperatures read from stdin with k[] pre-filled with NaN,
-// prints one line per temperature: k[0] ... k[NREACTIONS-1]  (nan = not assigned)
+// then the rendered right-hand side (Fex) at the same temperature, all in ONE process.
+// prints one line per temperature: k[0] ... k[NREACTIONS-1]  (nan = not assigned)  |  ydot[0] ... ydot[NEQUATIONS-1]
 #include <stdio.h>
 #include <math.h>
 #include "naunet_data.h"
 #include "naunet_macros.h"
 #include "naunet_ode.h"
+#ifndef C06_ODEINT
+#include "sundials_shim.h"
+#endif
 int main() {
     double T;
     while (scanf("%lf", &T) == 1) {
@@ -14,6 +18,21 @@ int main() {
         double k[NREACTIONS]; for (int i = 0; i < NREACTIONS; i++) k[i] = NAN;
         EvalRates(k, y, &d);
         for (int i = 0; i < NREACTIONS; i++) printf("%.17g ", k[i]);
+        printf("|");
+#ifdef C06_ODEINT
+        vector_type ab(NEQUATIONS), yd(NEQUATIONS);
+        for (int i = 0; i < NEQUATIONS; i++) { ab[i] = 1.0; yd[i] = NAN; }
+        Fex fex(&d);
+        fex(ab, yd, 0.0);
+        for (int i = 0; i < NEQUATIONS; i++) printf(" %.17g", yd[i]);
+#else
+        SUNContext ctx; SUNContext_Create(NULL, &ctx);
+        N_Vector u = N_VNew_Serial(NEQUATIONS, ctx), ud = N_VNew_Serial(NEQUATIONS, ctx);
+        for (int i = 0; i < NEQUATIONS; i++) { N_VGetArrayPointer(u)[i] = 1.0; N_VGetArrayPointer(ud)[i] = NAN; }
+        Fex(0.0, u, ud, &d);
+        for (int i = 0; i < NEQUATIONS; i++) printf(" %.17g", N_VGetArrayPointer(ud)[i]);
+        N_VDestroy(u); N_VDestroy(ud); SUNContext_Free(&ctx);
+#endif
         printf("\n");
     }
     return 0;
